@@ -395,26 +395,19 @@ def acquisition_time(cx):
               detail='' if bad is None else '`%s`: %s' % (k, bad), key='op|' + k)
     cx.floor('TAGS', nops, 3, 'arithmetic operations in acquisition_time')
     # precedence chain: >1 time channels -> KeyError; one channel and a time step; start and end; else None
-    chain = [s for s in body if isinstance(s, ast.If)]
-    ok = len(chain) >= 1
-    if ok:
-        i = [k for k, s_ in enumerate(body) if s_ is chain[0]][0]
-        links, els = if_chain(body, i)
-        tests = [t for t, b_, s_ in links]
-        bodies = [b_ for t, b_, s_ in links]
-        idx = None
-        for st in body:
-            if isinstance(st, ast.Assign) and isinstance(st.value, ast.ListComp):
-                idx = st.targets[0].id
-        ok = idx is not None and len(tests) == 3 and \
-            sym.norm(tests[0]) == sym.norm('len(%s) > 1' % idx) and 'KeyError' in raised_types(bodies[0]) and \
-            sym.norm(tests[1]) in (sym.norm('len(%s) == 1 and self.time_step is not None' % idx),
-                                   sym.norm('len(%s) == 1 and self._time_step is not None' % idx)) and \
-            sym.norm(tests[2]) == sym.norm('self._acquisition_start_time is not None and self._acquisition_end_time is not None') and \
-            len(els) == 1 and isinstance(els[0], ast.Return) and sym.norm(els[0].value) == ('const', None) and \
-            all(isinstance(b_[-1], (ast.Return, ast.Raise)) for b_ in bodies)
+    # (the conditions under which each `return` runs - channel and time step first, then start and end times, else
+    #  None - are the recorded return contexts of this function, CONTEXT above, whatever the spelling of the chain;
+    #  here: the refusal of several time channels and the final None)
+    idx = None
+    for st in body:
+        if isinstance(st, ast.Assign) and isinstance(st.value, ast.ListComp):
+            idx = st.targets[0].id
+    from ..rules import guards as _guards
+    gk = [g for g, p in _guards(fn, exc=['KeyError']) if not p and idx is not None and sym.norm(g.test) == sym.norm('len(%s) > 1' % idx)]
+    rn = [r for r in fn.stmts(ast.Return) if r.value is None or sym.norm(r.value) == ('const', None)]
+    ok = len(gk) == 1 and len(rn) >= 1
     fn.ob('TAGS', 'duration precedence is one chain: two time channels -> KeyError; time channel and time step; start and end times; else None',
-          ok, chain[0] if chain else fn.ast, key='precedence')
+          ok, gk[0] if gk else fn.ast, key='precedence')
     inventory(fn, 'FORMULA', [
         ('time channels are found by case-insensitive name', "IDX = [I for I, CH in enumerate(self.channels) if CH.lower() == 'time']"),
         ('the time channel is addressed by its name', 'TC = self.channels[IDX[0]]'),
